@@ -57,6 +57,7 @@ func (c *concurrencyOperator) Next(ctx context.Context) ([]model.StepVector, err
 		go c.drainBufferOnCancel(ctx)
 	})
 
+	model.VerifYield("concurrent.next.recv")
 	r, ok := <-c.buffer
 	if !ok {
 		return nil, nil
@@ -85,6 +86,7 @@ func (c *concurrencyOperator) pull(ctx context.Context) {
 			if r == nil {
 				return
 			}
+			model.VerifYield("concurrent.pull.send")
 			c.buffer <- maybeStepVector{stepVector: r}
 		}
 	}
@@ -92,6 +94,7 @@ func (c *concurrencyOperator) pull(ctx context.Context) {
 
 func (c *concurrencyOperator) drainBufferOnCancel(ctx context.Context) {
 	<-ctx.Done()
+	model.VerifYield("concurrent.drain.woken")
 	for range c.buffer {
 	}
 }
